@@ -33,15 +33,15 @@ variable {ν : Type} [NumOps ν]
 /-- `输出 e` stores the value in the return slot of the current frame and yields it. -/
 theorem return_sets_slot (n ln : Nat) (e : Expr) (s s' : VM ν) (v : Addr) (fr : Frame) (rest : List Frame)
     (hs : s.stack = fr :: rest)
-    (he : evalExpr n e { s with stack := { fr with line := ln } :: rest } = (.ok v, s'))
-    (hst : s'.stack = { fr with line := ln } :: rest) :
+    (he : evalExpr n e { s with stack := { fr with line := ln, started := true } :: rest } = (.ok v, s'))
+    (hst : s'.stack = { fr with line := ln, started := true } :: rest) :
     ∃ s'', evalStmt (n+1) (.ret ln e) s = (.ok v, s'') ∧
-      s''.stack = { fr with line := ln, ret := some v } :: rest := by
-  refine ⟨{ s' with stack := { fr with line := ln, ret := some v } :: rest }, ?_, rfl⟩
+      s''.stack = { fr with line := ln, started := true, ret := some v } :: rest := by
+  refine ⟨{ s' with stack := { fr with line := ln, started := true, ret := some v } :: rest }, ?_, rfl⟩
   simp only [evalStmt, Stmt.line]
   simp [bind, setTopFrame, modifyVM, hs, he, hst, pure]
 
-example : ∃ s'', evalStmt 3 retX vm0 = (.ok 0, s'') ∧ s''.stack = [{ moduleId := 0, callType := 1, ret := some 0 }] :=
+example : ∃ s'', evalStmt 3 retX vm0 = (.ok 0, s'') ∧ s''.stack = [{ moduleId := 0, callType := 1, started := true, ret := some 0 }] :=
   return_sets_slot 2 0 (.str 0 "x") vm0 _ 0 { moduleId := 0, callType := 1 } [] rfl rfl rfl
 
 /-- the statement loop of a block: once the return slot is set after a statement, *no later statement
@@ -54,7 +54,7 @@ theorem no_statement_after_return (evalOne : Stmt → M ν Addr) (last : Option 
   simp [stmtsLoop, hnd, bind, h1, getReturnValue, topFrame, hst, hret, pure]
 
 example : ∃ s', stmtsLoop (evalStmt 3) none [retX, .nil] vm0 = (.ok (some 0), s') :=
-  ⟨_, no_statement_after_return (evalStmt 3) none retX [.nil] vm0 _ 0 0 { moduleId := 0, callType := 1, ret := some 0 } []
+  ⟨_, no_statement_after_return (evalStmt 3) none retX [.nil] vm0 _ 0 0 { moduleId := 0, callType := 1, started := true, ret := some 0 } []
     rfl rfl rfl rfl⟩
 
 /-- … and while the slot is empty the loop goes on with the next statement, remembering the last value
@@ -67,7 +67,7 @@ theorem statement_loop_continues (evalOne : Stmt → M ν Addr) (last : Option A
   simp [stmtsLoop, hnd, bind, h1, getReturnValue, topFrame, hst, hret, pure]
 
 example : ∃ s', stmtsLoop (evalStmt 3) none [.empty 0, .nil] vm0 = stmtsLoop (evalStmt 3) (some 0) [.nil] s' :=
-  ⟨_, statement_loop_continues (evalStmt 3) none (.empty 0) [.nil] vm0 _ 0 { moduleId := 0, callType := 1 } []
+  ⟨_, statement_loop_continues (evalStmt 3) none (.empty 0) [.nil] vm0 _ 0 { moduleId := 0, callType := 1, started := true } []
     rfl rfl rfl rfl⟩
 
 theorem final_statement_value (evalOne : Stmt → M ν Addr) (last : Option Addr) (s : VM ν) :
@@ -142,7 +142,7 @@ theorem branch_else_last {α β} (f : α → M ν (Option β)) (d : M ν β) (s 
 theorem branch_non_bool_is_error (n ln : Nat) (c : Expr) (ifB elseB : Option (List Stmt))
     (others : List (Expr × Option (List Stmt))) (he : Bool) (s s' : VM ν) (a : Addr) (cell : Cell ν)
     (fr : Frame) (rest : List Frame) (hs : s.stack = fr :: rest)
-    (hc : evalExpr n c { s with stack := { fr with line := ln } :: rest } = (.ok a, s'))
+    (hc : evalExpr n c { s with stack := { fr with line := ln, started := true } :: rest } = (.ok a, s'))
     (hcell : s'.heap[a]? = some cell) (hnb : ∀ b, cell ≠ .bool b) :
     evalStmt (n+1) (.branch ln c ifB others he elseB) s = (.err (.rt 80), s') := by
   simp only [evalStmt, Stmt.line]
@@ -158,13 +158,15 @@ example : ∃ s', evalStmt 3 (.branch 0 (.str 0 "x") (some [.nil]) [] false none
 From here on the theorems are about `evalStmt (n+1) (.while …)`, `(.iterate …)`, `(.branch …)`,
 `evalPureStmtBlock`, `evalExecBlock` themselves — every fuel `n`, every body, every machine state.
 Vocabulary (defined in `Proofs/ControlFlow.lean`, each tied to the model by an unfolding lemma proved there):
-`setLine ln s` = `s` with the line of the top frame set (first thing `evalStmt` does); `enterScope`/`leaveScope h`
+`setLine ln s` = `s` with the line of the top frame set and the frame marked started (first thing `evalStmt` does,
+and first thing every turn of a 每当 loop does); `enterScope`/`leaveScope h`
 = `BeginBoundScope` / the deferred `EndScope` (they touch `scopes` only); `retSlot s` = the return slot of the
 top frame; `ReturnSet s` = that slot holds a value; `newNull s` = allocate 空 (the value of 如果/每当/遍历);
 `Steps ev none pre s last s1` = the statements `pre` ran from `s`, each ended normally with the slot empty;
 `passVerdict r s` = how a loop reads the end (`r`, `s`) of a pass: `some true` go on (normal end with the slot
 empty, or 继续循环), `some false` stop (结束循环, or normal end with the slot set), `none` propagate;
-`WhilePasses n c body k s s1` = k complete passes (condition evaluated first and 真 each time);
+`WhilePasses n ln c body k s s1` = k complete passes (each time the loop's line `ln` is made current again, then the
+condition is evaluated first and is 真); `whileTurn n ln c body` = one turn of the loop as `evalStmt` runs it;
 `ListPasses … i items s s1` / `DictPasses … target keys s s1` = complete passes for those elements in that order
 (for a dictionary: a key that an earlier pass removed is skipped — no binding, no body, machine unchanged). -/
 
@@ -226,8 +228,8 @@ normally leaving the return slot set, the loop is over: the statement is `ok` (v
 state after *that* pass (plus the 空 cell) — no further condition test, no further pass — and the slot is still set. -/
 theorem return_stops_while (n ln k : Nat) (c : Expr) (body : Option (List Stmt)) (s s1 s2 s3 : VM ν)
     (a rv : Addr) (r : Option Addr)
-    (hp : WhilePasses n c body k (setLine ln s) s1) (hk : k < n)
-    (hc : evalExpr n c s1 = (.ok a, s2)) (ht : s2.heap[a]? = some (.bool true))
+    (hp : WhilePasses n ln c body k (setLine ln s) s1) (hk : k < n)
+    (hc : evalExpr n c (setLine ln s1) = (.ok a, s2)) (ht : s2.heap[a]? = some (.bool true))
     (hb : evalPureStmtBlock n body s2 = (.ok r, s3)) (hret : retSlot s3 = some rv) :
     evalStmt (n+1) (.while ln c body) s = newNull s3 ∧ retSlot (newNull s3).2 = some rv := by
   refine ⟨while_stops_after hp hk (whileStep_pass hc ht hb ?_), hret⟩
@@ -469,8 +471,8 @@ example : ∃ s2, ((do let _ ← evalPureStmtBlock 4 (some [.break 0, .nil]); ne
 catches it: the statement is `ok` with value 空 in the state after that pass (no further test, no further pass).
 Being `ok`, the statement is to its enclosing block like any finished statement (next theorem). -/
 theorem break_innermost_only_while (n ln k : Nat) (c : Expr) (body : Option (List Stmt)) (s s1 s2 s3 : VM ν) (a : Addr)
-    (hp : WhilePasses n c body k (setLine ln s) s1) (hk : k < n)
-    (hc : evalExpr n c s1 = (.ok a, s2)) (ht : s2.heap[a]? = some (.bool true))
+    (hp : WhilePasses n ln c body k (setLine ln s) s1) (hk : k < n)
+    (hc : evalExpr n c (setLine ln s1) = (.ok a, s2)) (ht : s2.heap[a]? = some (.bool true))
     (hb : evalPureStmtBlock n body s2 = (.err .sigBreak, s3)) :
     evalStmt (n+1) (.while ln c body) s = newNull s3 :=
   while_stops_after hp hk (whileStep_pass hc ht hb rfl)
@@ -485,8 +487,8 @@ example : ∃ s3, evalStmt 7 (.while 0 cTrue (some breakSecondTime)) vm1 = newNu
 after the loop: the signal does not reach any outer loop. -/
 theorem break_resumes_enclosing_block (n ln k : Nat) (c : Expr) (body : Option (List Stmt)) (s s1 s2 s3 : VM ν) (a : Addr)
     (last : Option Addr) (rest : List Stmt)
-    (hp : WhilePasses n c body k (setLine ln s) s1) (hk : k < n)
-    (hc : evalExpr n c s1 = (.ok a, s2)) (ht : s2.heap[a]? = some (.bool true))
+    (hp : WhilePasses n ln c body k (setLine ln s) s1) (hk : k < n)
+    (hc : evalExpr n c (setLine ln s1) = (.ok a, s2)) (ht : s2.heap[a]? = some (.bool true))
     (hb : evalPureStmtBlock n body s2 = (.err .sigBreak, s3)) (hempty : retSlot s3 = none) :
     stmtsLoop (evalStmt (n+1)) last (.while ln c body :: rest) s =
       stmtsLoop (evalStmt (n+1)) (some s3.heap.size) rest (newNull s3).2 := by
@@ -505,24 +507,24 @@ example : ∃ a s', stmtsLoop (evalStmt 7) none (.while 0 cTrue (some breakSecon
 counts as complete: the loop goes on with its next turn, which starts by evaluating the condition again
 (`whileStep` = test, then pass).  Hence k passes become k+1 passes, and every statement about "after k+1 passes"
 (`while_ends_when_condition_false`, `return_stops_while`, …) applies. -/
-theorem continue_innermost_only_while (n k : Nat) (c : Expr) (body : Option (List Stmt)) (s0 s1 s2 s3 : VM ν) (a : Addr)
-    (hp : WhilePasses n c body k s0 s1)
-    (hc : evalExpr n c s1 = (.ok a, s2)) (ht : s2.heap[a]? = some (.bool true))
+theorem continue_innermost_only_while (n ln k : Nat) (c : Expr) (body : Option (List Stmt)) (s0 s1 s2 s3 : VM ν) (a : Addr)
+    (hp : WhilePasses n ln c body k s0 s1)
+    (hc : evalExpr n c (setLine ln s1) = (.ok a, s2)) (ht : s2.heap[a]? = some (.bool true))
     (hb : evalPureStmtBlock n body s2 = (.err .sigContinue, s3)) :
-    WhilePasses n c body (k+1) s0 s3 ∧
-    ∀ j, whileM (j+1) (whileStep n c body) s1 = whileM j (whileStep n c body) s3 := by
+    WhilePasses n ln c body (k+1) s0 s3 ∧
+    ∀ j, whileM (j+1) (whileTurn n ln c body) s1 = whileM j (whileTurn n ln c body) s3 := by
   refine ⟨hp.snoc hc ht hb rfl, fun j => ?_⟩
-  simp [whileM, bind, whileStep_pass hc ht hb (show passVerdict _ s3 = some true from rfl)]
+  simp [whileM, bind, whileTurn_eq, whileStep_pass hc ht hb (show passVerdict _ s3 = some true from rfl)]
 
-example : ∃ s3, WhilePasses 6 cTrue (some [.continue 0, .nil]) 1 vm0 s3 :=
-  ⟨_, (continue_innermost_only_while 6 0 cTrue (some [.continue 0, .nil]) vm0 _ _ _ _ (.zero _)
+example : ∃ s3, WhilePasses 6 0 cTrue (some [.continue 0, .nil]) 1 vm0 s3 :=
+  ⟨_, (continue_innermost_only_while 6 0 0 cTrue (some [.continue 0, .nil]) vm0 _ _ _ _ (.zero _)
     (run_ok (evalExpr 6 cTrue) _ K) (cell_bool _ true K) (run_err (evalPureStmtBlock 6 _) _ _ K)).1⟩
 
 /-- `while_retests` on the statement: the loop ends (value 空) exactly when the condition, evaluated again after
 k complete passes, is 假 — in the state in which that test left the machine. -/
 theorem while_ends_when_condition_false (n ln k : Nat) (c : Expr) (body : Option (List Stmt)) (s s1 s2 : VM ν) (a : Addr)
-    (hp : WhilePasses n c body k (setLine ln s) s1) (hk : k < n)
-    (hc : evalExpr n c s1 = (.ok a, s2)) (hf : s2.heap[a]? = some (.bool false)) :
+    (hp : WhilePasses n ln c body k (setLine ln s) s1) (hk : k < n)
+    (hc : evalExpr n c (setLine ln s1) = (.ok a, s2)) (hf : s2.heap[a]? = some (.bool false)) :
     evalStmt (n+1) (.while ln c body) s = newNull s2 :=
   while_stops_after hp hk (whileStep_false hc hf)
 
@@ -535,8 +537,8 @@ example : ∃ s2, evalStmt 7 (.while 0 dNeT (some [setD])) vm1 = newNull s2 :=
 /-- … and a non-boolean condition, at whichever test, is error 80 (the body is not run for it). -/
 theorem while_non_bool_is_error (n ln k : Nat) (c : Expr) (body : Option (List Stmt)) (s s1 s2 : VM ν) (a : Addr)
     (cell : Cell ν)
-    (hp : WhilePasses n c body k (setLine ln s) s1) (hk : k < n)
-    (hc : evalExpr n c s1 = (.ok a, s2)) (hcell : s2.heap[a]? = some cell) (hnb : ∀ b, cell ≠ .bool b) :
+    (hp : WhilePasses n ln c body k (setLine ln s) s1) (hk : k < n)
+    (hc : evalExpr n c (setLine ln s1) = (.ok a, s2)) (hcell : s2.heap[a]? = some cell) (hnb : ∀ b, cell ≠ .bool b) :
     evalStmt (n+1) (.while ln c body) s = (.err (.rt 80), s2) :=
   while_fails_after hp hk (whileStep_non_bool hc hcell hnb)
 
@@ -548,8 +550,8 @@ example : ∃ s2, evalStmt 7 (.while 0 (.str 0 "x") (some [.nil])) vm0 = (.err (
 ends the loop and is the outcome of the 每当 statement -/
 theorem while_passes_other_errors (n ln k : Nat) (c : Expr) (body : Option (List Stmt)) (s s1 s2 s3 : VM ν) (a : Addr)
     (e : Err)
-    (hp : WhilePasses n c body k (setLine ln s) s1) (hk : k < n)
-    (hc : evalExpr n c s1 = (.ok a, s2)) (ht : s2.heap[a]? = some (.bool true))
+    (hp : WhilePasses n ln c body k (setLine ln s) s1) (hk : k < n)
+    (hc : evalExpr n c (setLine ln s1) = (.ok a, s2)) (ht : s2.heap[a]? = some (.bool true))
     (hb : evalPureStmtBlock n body s2 = (.err e, s3)) (h1 : e ≠ .sigBreak) (h2 : e ≠ .sigContinue) :
     evalStmt (n+1) (.while ln c body) s = (.err e, s3) := by
   refine while_fails_after hp hk ?_
@@ -852,7 +854,7 @@ example : ∃ rv, ∃ sr s' : VM Int,
   · exact .nil _ _
   · exact run_ok (iterBind 3 0 _ _ _) _ K
   apply RetPath.block (pre := []) (post := [.nil]) (.nil _ _) rfl
-  exact RetPath.ret (fr := { moduleId := 0, callType := 1 }) (rest := []) (run_ok (evalExpr 1 _) _ K) K
+  exact RetPath.ret (fr := { moduleId := 0, callType := 1, started := true }) (rest := []) (run_ok (evalExpr 1 _) _ K) K
 
 /-- the full statement of the converse of `return_stops_everything` (proved below: `return_path_complete`):
 `RetPath` describes *every* way in which a block can end `ok` with the slot newly set, i.e. only a 输出 statement of
